@@ -81,6 +81,20 @@ def check_site(ctx, rule, k, u, f, call):
                 break
         ok = c_nonnul
         why = ''
+        if not ok and dv is None:
+            # stored into an array element (digits[i] = dp - set): which guard covers which element is not followed
+            asg = None
+            for a in ancestors(dx):
+                if a.get('kind') == 'BinaryOperator' and a.get('opcode') == '=':
+                    asg = a
+                    break
+                if a.get('kind') not in ('ImplicitCastExpr', 'ParenExpr', 'CXXStaticCastExpr', 'CStyleCastExpr'):
+                    break
+            if asg is not None and peel(kids(asg)[0]).get('kind') in ('ArraySubscriptExpr', 'CXXOperatorCallExpr'):
+                ctx.unknown(rule, 'digit lookup strchr(%s, %s) in %s excludes NUL' % (setk.split('#')[0], ck.split('#')[0][:30], where), dx,
+                            'the digit value is stored in an array element (%s): the test that excludes the terminator is not tied to '
+                            'the element' % raw.key(kids(asg)[0]), construct='nul:%s:%s' % (where, pv.get('name')))
+                continue
         if not ok and dv is not None and n is not None:
             dk = keys.subst.get(dv['id'], '%s#%s' % (dv['name'], dv['id']))
             uses = [y for y in walk(f) if y.get('kind') == 'DeclRefExpr' and (y.get('referencedDecl') or {}).get('id') == dv['id']]
